@@ -680,6 +680,22 @@ func explore(P *Prog, fn *ssa.Function, init uint64, evs []Ev, record func(ssa.I
 			}
 		}
 		if x, ok := b.Instrs[len(b.Instrs)-1].(*ssa.If); ok && len(b.Succs) == 2 {
+			// an index compared with the length of a slice that is nil on this path (a range over a result variable
+			// that holds nil here): `i < len(nil)` is false for every index that cannot be negative
+			cv, pos := normCond(x.Cond, true)
+			if bo, isCmp := cv.(*ssa.BinOp); isCmp && bo.Op == token.LSS {
+				if sl := lenArg(bo.Y); sl != nil && isNilConst(pathResolve(sl)) {
+					if lb, okB := lowerBound(bo.X, 4, map[ssa.Value]bool{}); okB && lb >= 0 {
+						if pos {
+							feasible[0] = false
+						} else {
+							feasible[1] = false
+						}
+					}
+				}
+			}
+		}
+		if x, ok := b.Instrs[len(b.Instrs)-1].(*ssa.If); ok && len(b.Succs) == 2 {
 			// a comparison of integer constants once φs are resolved (for i := 0; i < 2; …: the first test is 0 < 2)
 			cv, pos := normCond(x.Cond, true)
 			if bo, isCmp := cv.(*ssa.BinOp); isCmp {
@@ -874,9 +890,85 @@ func condPhis(fn *ssa.Function) []*ssa.Phi {
 					add(bo.Y, 0)
 				}
 			}
+			// a slice variable whose length bounds a loop and that is nil on some path
+			if bo, ok := c.(*ssa.BinOp); ok && bo.Op == token.LSS {
+				if sl := lenArg(bo.Y); sl != nil {
+					if phi, isPhi := sl.(*ssa.Phi); isPhi {
+						for _, e := range phi.Edges {
+							if isNilConst(e) {
+								add(sl, 0)
+								break
+							}
+						}
+					}
+				}
+			}
 		}
 	}
 	return out
+}
+
+// lenArg: v is len(x) of a slice: x.
+func lenArg(v ssa.Value) ssa.Value {
+	cl, ok := v.(*ssa.Call)
+	if !ok || len(cl.Call.Args) != 1 {
+		return nil
+	}
+	if b, isB := cl.Call.Value.(*ssa.Builtin); !isB || b.Name() != "len" {
+		return nil
+	}
+	if _, isSl := cl.Call.Args[0].Type().Underlying().(*types.Slice); !isSl {
+		return nil
+	}
+	return cl.Call.Args[0]
+}
+
+// lowerBound: a constant the integer v is never below: constants, φs of such values (an operand that adds a
+// non-negative constant to the φ itself only moves upwards), sums with constants.
+func lowerBound(v ssa.Value, depth int, busy map[ssa.Value]bool) (int64, bool) {
+	if depth < 0 {
+		return 0, false
+	}
+	if k, ok := constInt(v); ok {
+		return k, true
+	}
+	switch x := v.(type) {
+	case *ssa.BinOp:
+		if x.Op == token.ADD {
+			if k, ok := constInt(x.Y); ok {
+				if busy[x.X] {
+					if k >= 0 {
+						return 1 << 40, true // above the φ's own bound: ignored by the minimum
+					}
+					return 0, false
+				}
+				if lb, okL := lowerBound(x.X, depth-1, busy); okL {
+					return lb + k, true
+				}
+			}
+		}
+	case *ssa.Phi:
+		if busy[x] {
+			return 0, false
+		}
+		busy[x] = true
+		defer delete(busy, x)
+		min, have := int64(1<<40), false
+		for _, e := range x.Edges {
+			lb, ok := lowerBound(e, depth-1, busy)
+			if !ok {
+				return 0, false
+			}
+			if lb < min {
+				min = lb
+			}
+			have = true
+		}
+		if have && min < 1<<40 {
+			return min, true
+		}
+	}
+	return 0, false
 }
 
 // resolveAt: v as the φ operand selected on the path described by sel.
